@@ -104,6 +104,18 @@ class Draws:
             self.order.append(name)
         return s
 
+    def adopt(self, recorded):
+        """Take over the recording made by another Draws instance that ran
+        the same case (e.g. in a forked child)."""
+        self.streams = {}
+        self.order = []
+        for name, values in recorded.items():
+            st = Stream(name, replay=list(values))
+            st.values = list(values)
+            st.labels = [""] * len(values)
+            self.streams[name] = st
+            self.order.append(name)
+
     def recorded(self):
         """{stream name: [values]} for every stream that was opened, in the
         order of first use (insertion-ordered dict)."""
